@@ -26,13 +26,13 @@ CONSTANTS Classes, Contexts,
           AttrEscapes,     \* 2 as pinned (escaped in SanitizeStyleAttributeValues AND by the generator); 1 = repaired; 0 = negative
           EmitEdges
 
-VARIABLES cls, ctx, phase, acc, con, con1, raw, where, res, lbl
-vars == <<cls, ctx, phase, acc, con, con1, raw, where, res>>
+VARIABLES cls, ctx, phase, acc, con, con1, raw, res, lbl
+vars == <<cls, ctx, phase, acc, con, con1, raw, res>>
 
 AllClasses == {"Regular", "Enum", "FontFamily", "BackgroundImage", "Name"}
 AllContexts == {"style", "attr"}
 
-IsWsGo(c) == c \in CssWs \cup {"UWS"}          \* strings.TrimSpace
+IsWsGo(c) == c \in CssWs \cup {"UWS", "VT"}    \* strings.TrimSpace
 IsAsciiLetter(c) == CIsLetter(c)
 
 -----------------------------------------------------------------------------
@@ -63,15 +63,15 @@ FSegStep(s, c) ==
             IF FontFix THEN
                  (IF s = "q_closed" THEN "bad"
                   ELSE IF c = CDQ THEN "q_closed"
-                  ELSE IF c \in ({CBSL, "<", "CTL", "TAB"} \cup CssNl) THEN "bad" ELSE "q_in")
+                  ELSE IF c \in ({CBSL, "<", "CTL", "VT", "TAB"} \cup CssNl) THEN "bad" ELSE "q_in")
             ELSE (IF c = CDQ THEN "q_closed" ELSE "q_in")
       [] s \in {"g1", "g2"} -> IF IsAsciiLetter(c) \/ c \in {"-", "SP"} THEN "g2" ELSE "bad"
       [] OTHER -> "bad"
 FSegAccept(s) == IF s = "q_closed" \/ (s = "q_open1" /\ ~FontFix) THEN "FontFamily.QuotedSegment"
                  ELSE IF s = "g2" THEN "FontFamily.GenericName" ELSE ""
-FontInit == [core |-> "lead", cur |-> "lead", ok |-> TRUE]
+FontInit == [core |-> "lead", cur |-> "lead", ok |-> TRUE, used |-> {}]
 FontStep(f, c) ==
-    IF c = "," THEN [core |-> "lead", cur |-> "lead", ok |-> f.ok /\ FSegAccept(f.core) # ""]
+    IF c = "," THEN [core |-> "lead", cur |-> "lead", ok |-> f.ok /\ FSegAccept(f.core) # "", used |-> f.used \cup {FSegAccept(f.core)}]
     ELSE IF IsWsGo(c) THEN (IF f.cur = "lead" THEN f ELSE [f EXCEPT !.cur = FSegStep(f.cur, c)])
     ELSE LET n == FSegStep(f.cur, c) IN [f EXCEPT !.core = n, !.cur = n]
 FontSegBranch(f) == FSegAccept(f.core)
@@ -81,7 +81,7 @@ FontAccept(f) == IF f.ok THEN FSegAccept(f.core) ELSE ""
    States: "start" "slash1" scheme prefixes (sequences) "schother" "nosch1" "free" "okabs0" "okabs1" "okabs" "rej" "unk"
    "unk": features whose outcome in net/url is not modelled ('%' escapes, an authority after "//"); treated as
    accepted here (over-approximation; the binding takes the real verdict).                                   *)
-UrlCtl(c) == c \in {"CTL", "TAB", "LF", "CR", "FF"}
+UrlCtl(c) == c \in {"CTL", "VT", "TAB", "LF", "CR", "FF"}
 UrlSchemeChar(c) == IsAsciiLetter(c) \/ c \in {"0", "+", "-", "."}
 UrlStep(a, c0) ==
     LET c == CLower(c0) IN
@@ -118,21 +118,22 @@ UrlOk(a) == a # <<"rej">>
      lastq  the previous character was the quote qk
      badA, badB  (BgFix) the inner text contains a character that ends / breaks the url token or the string
      br   branch taken (when done)                                                                          *)
+BgWs(c) == IF BgFix THEN c \in CssWs ELSE IsWsGo(c)      \* the repair trims only what CSS treats as white space
 BgSegInit == [ph |-> "lead", qk |-> "-", A |-> <<"start">>, B |-> <<"start">>, nB |-> 0, lastq |-> FALSE,
               badA |-> FALSE, badB |-> FALSE, br |-> ""]
-BareIllegal == CssWs \cup {CDQ, "'", "(", ")", CBSL, "CTL"}
-QuotedIllegal(q) == {q, CBSL, "CTL"} \cup CssNl
+BareIllegal == CssWs \cup {CDQ, "'", "(", ")", CBSL, "CTL", "VT", "UWS"}
+QuotedIllegal(q) == {q, CBSL, "CTL", "VT"} \cup CssNl
 BranchOf(q) == IF q = CDQ THEN "BackgroundImage.UrlDQ" ELSE "BackgroundImage.UrlSQ"
 BgDone(s, b, verdictState, bad) ==
     IF UrlOk(verdictState) /\ ~(BgFix /\ bad) THEN [s EXCEPT !.ph = "done", !.br = b] ELSE [s EXCEPT !.ph = "bad"]
 \* successors of a segment state on a non-comma character
 BgSegNext(s, c) ==
-    IF s.ph = "lead" THEN {IF IsWsGo(c) THEN s ELSE IF c = "u" THEN [s EXCEPT !.ph = "u"] ELSE [s EXCEPT !.ph = "bad"]}
+    IF s.ph = "lead" THEN {IF BgWs(c) THEN s ELSE IF c = "u" THEN [s EXCEPT !.ph = "u"] ELSE [s EXCEPT !.ph = "bad"]}
     ELSE IF s.ph = "u" THEN {IF c = "r" THEN [s EXCEPT !.ph = "ur"] ELSE [s EXCEPT !.ph = "bad"]}
     ELSE IF s.ph = "ur" THEN {IF c = "l" THEN [s EXCEPT !.ph = "url"] ELSE [s EXCEPT !.ph = "bad"]}
     ELSE IF s.ph = "url" THEN {IF c = "(" THEN [s EXCEPT !.ph = "open"] ELSE [s EXCEPT !.ph = "bad"]}
     ELSE IF s.ph = "sfx" THEN {IF c = ")" THEN BgDone(s, BranchOf(s.qk), s.B, s.badB) ELSE [s EXCEPT !.ph = "bad"]}
-    ELSE IF s.ph = "done" THEN {IF IsWsGo(c) THEN s ELSE [s EXCEPT !.ph = "bad"]}
+    ELSE IF s.ph = "done" THEN {IF BgWs(c) THEN s ELSE [s EXCEPT !.ph = "bad"]}
     ELSE IF s.ph = "bad" THEN {s}
     ELSE \* "open" / "body"
         LET quoted == s.qk # "-"
@@ -152,11 +153,11 @@ BgSegNext(s, c) ==
                       ELSE IF quoted /\ s.lastq THEN {}                                     \* the quoted form matches first (via "sfx")
                       ELSE {BgDone(s, "BackgroundImage.UrlBare", s.A, s.badA)}
         IN {asInner} \cup gQuote \cup gParen
-BgInit == [seg |-> BgSegInit, ok |-> TRUE]
+BgInit == [seg |-> BgSegInit, ok |-> TRUE, used |-> {}]
 BgSegAccept(s) == IF s.ph = "done" THEN s.br ELSE ""
 BgNext(b, c) ==
     IF AngleGuard /\ c \in {"<", ">"} THEN {[b EXCEPT !.ok = FALSE]}
-    ELSE IF c = "," THEN {[seg |-> BgSegInit, ok |-> b.ok /\ BgSegAccept(b.seg) # ""]}
+    ELSE IF c = "," THEN {[seg |-> BgSegInit, ok |-> b.ok /\ BgSegAccept(b.seg) # "", used |-> b.used \cup {BgSegAccept(b.seg)}]}
     ELSE {[b EXCEPT !.seg = n] : n \in BgSegNext(b.seg, c)}
 BgSegBranch(b) == BgSegAccept(b.seg)
 BgAccept(b) == IF b.ok THEN BgSegAccept(b.seg) ELSE ""
@@ -169,9 +170,13 @@ AccNext(k, a, c) == CASE k = "Regular" -> {RegStep(a, c)} [] k = "Enum" -> {Enum
                       [] k = "FontFamily" -> {FontStep(a, c)} [] k = "BackgroundImage" -> BgNext(a, c)
 AccAccept(k, a) == CASE k = "Regular" -> RegAccept(a) [] k = "Enum" -> EnumAccept(a) [] k = "Name" -> NameAccept(a)
                      [] k = "FontFamily" -> FontAccept(a) [] k = "BackgroundImage" -> BgAccept(a)
-\* branch of the segment that is being closed by a ',' (classes with segments), else the value's branch at the end
-AccSegBranch(k, a) == CASE k = "FontFamily" -> FontSegBranch(a) [] k = "BackgroundImage" -> BgSegBranch(a) [] OTHER -> ""
-HasSegments(k) == k \in {"FontFamily", "BackgroundImage"}
+\* Attribution of a broken accepted value to an accept branch. Segments accepted by GenericName consist of
+\* letters, '-' and spaces only and cannot cause an event, so the permissive branches come first.
+BranchPriority == <<"FontFamily.QuotedSegment", "BackgroundImage.UrlDQ", "BackgroundImage.UrlSQ", "BackgroundImage.UrlBare">>
+Attribute(k, a, b) ==
+    LET used == IF k \in {"FontFamily", "BackgroundImage"} THEN a.used \cup {b} ELSE {b}
+        hits == {i \in 1..Len(BranchPriority) : BranchPriority[i] \in used}
+    IN  IF hits = {} THEN b ELSE BranchPriority[CHOOSE i \in hits : \A j \in hits : i <= j]
 
 Innocuous == <<"z", "Z", "e", "m", "p", "l", "U", "z", "s", "a", "f", "e", "Z", "S", "S", "Z", "r", "o", "p", "e", "r", "t", "y", "Z", "a", "l", "u", "e">>
 
@@ -192,7 +197,6 @@ Init == /\ cls \in Classes /\ ctx \in Contexts
         /\ phase = "in"
         /\ acc = AccInit(cls)
         /\ con = CssInit /\ con1 = CssInit /\ raw = <<>>
-        /\ where = [at |-> "none", br |-> ""]       \* where the first event happened: "none" | "cur" (segment still open) | "past"
         /\ res = [br |-> "", ev |-> "", sig |-> ""]
         /\ lbl = [op |-> "init"]
 
@@ -203,12 +207,7 @@ Feed(c) ==
             con12 == ConStep(cls, con1, c)                  \* what CSS would see with a single level of escaping
             raw2 == IF ctx = "style" THEN CssRawStep(raw, c)
                     ELSE IF AttrEscapes = 0 /\ c = CDQ THEN <<"END">> ELSE raw
-            dirtyBefore == Dirty(ctx, con, raw) # ""
-            dirtyNow == Dirty(ctx, con2, raw2) # ""
-            w1 == IF ~dirtyBefore /\ dirtyNow THEN [at |-> "cur", br |-> ""] ELSE where
-            \* a ',' closes the segment: an event that happened in it is now attributed to its branch
-            w2 == IF HasSegments(cls) /\ c = "," /\ w1.at = "cur" THEN [at |-> "past", br |-> AccSegBranch(cls, acc)] ELSE w1
-        IN /\ acc' = a /\ con' = con2 /\ con1' = con12 /\ raw' = raw2 /\ where' = w2
+        IN /\ acc' = a /\ con' = con2 /\ con1' = con12 /\ raw' = raw2
            /\ lbl' = [op |-> "feed", sym |-> c]
     /\ UNCHANGED <<cls, ctx, phase, res>>
 
@@ -222,11 +221,11 @@ Close ==
            sig == IF ev = "" THEN ""
                   ELSE IF b = "" THEN "InnocuousValueNotClean"
                   ELSE IF ctx = "attr" /\ ev1 = "" THEN "StyleAttr.DoubleEscape"          \* clean with one level of escaping
-                  ELSE IF where.at = "past" THEN where.br ELSE b
+                  ELSE Attribute(cls, acc, b)
        IN /\ res' = [br |-> b, ev |-> ev, sig |-> sig]
           /\ lbl' = [op |-> "close", sym |-> ""]
     /\ phase' = "closed"
-    /\ UNCHANGED <<cls, ctx, acc, con, con1, raw, where>>
+    /\ UNCHANGED <<cls, ctx, acc, con, con1, raw>>
 
 Next == (\E c \in CssSym : Feed(c)) \/ Close
 Spec == Init /\ [][Next]_vars
